@@ -172,6 +172,8 @@ func (s *PfcpServer) VerifChanLens() (int, int, int) { return len(s.rcvCh), len(
 func (s *PfcpServer) VerifTxKeys(raddr net.Addr, seq uint32) (string, string) {
 	tx := NewTxTransaction(s, raddr, seq)
 	rx := NewRxTransaction(s, raddr, seq)
-	rx.timer.Stop()
+	if rx.timer != nil {
+		rx.timer.Stop()
+	}
 	return tx.id, rx.id
 }
